@@ -412,7 +412,8 @@ def core():
                           arg("dry_run", "bool", long=True),
                           arg("out_file", "str", optional=True)],
                 name="cfg"),
-        variant("Flags", [arg("a", "bool", short=True), arg("b", "bool", short=True, long="bee"), arg("quiet", "bool", long=True)]),
+        variant("Flags", [arg("a", "bool", short=True), arg("b", "bool", short=True, long="bee"), arg("quiet", "bool", long=True),
+                          arg("maybe", "bool", optional=True, long=True, short="m"), arg("rest", "str", optional=True)]),
         # required arguments of different kinds interleaved in declaration order (the first MISSING one is reported)
         variant("Copy", [arg("file", "str"), arg("level", "u8", short=True, long=True)]),
         variant("Mix", [arg("a", "u8"), arg("b", "u8", long=True), arg("c", "str"), arg("d", "i8", short=True), arg("e", "char")]),
@@ -483,9 +484,9 @@ def random_enum(rng, eid, leafs):
         for f in fields:
             ty = rng.choice(TYPES)
             named = rng.random() < 0.55 or (sub is not None)
-            optional = rng.random() < 0.4 and ty != "bool"
+            optional = rng.random() < 0.4
             a = arg(f, ty, optional=optional)
-            if ty == "bool" and not named:
+            if ty == "bool" and not named and not optional:
                 named = rng.random() < 0.7
             if named:
                 if rng.random() < 0.7 and kebab(f) not in longs:
